@@ -230,7 +230,12 @@ func (P *Program) VerifyFunc(fn *ssa.Function) (res *FuncResult) {
 					cur := c.H(ex.st, leaf, srt)
 					init := c.H(fr.old, leaf, srt)
 					if cur != init {
-						c.oblige("frame", fmt.Sprintf("%s#frame{%s}", name, leaf), "", props, eq(cur, init), ex.site.Pos(), "declared 'auto'/'noghost': protected component unchanged: "+leaf)
+						fprops := props
+						if con.Auto && strings.HasPrefix(leaf, "G:") && !hasStr(fprops, "C09") {
+							// a formatting function that writes a package-level variable makes later records depend on earlier ones
+							fprops = append(append([]string{}, props...), "C09")
+						}
+						c.oblige("frame", fmt.Sprintf("%s#frame{%s}", name, leaf), "", fprops, eq(cur, init), ex.site.Pos(), "declared 'auto'/'noghost': protected component unchanged: "+leaf)
 					}
 				}
 			}
